@@ -9,7 +9,9 @@ def main():
     if bad:
         print('FAILED:', bad)
         print(st['_log'][-3000:])
-    rc = 1 if bad else 0
+    # a proof file that does not compile is reported by the check of the property it serves
+    # (broken obligation); setup itself fails only when the executable model cannot be built
+    rc = 1 if any(f.split('/')[0] in ('Base', 'Impl', 'Extract') for f in bad) else 0
     for d in sorted(p.name for p in common.OCAML.iterdir() if p.is_dir()):
         try:
             print('driver', d, common.build_driver(d))
